@@ -15,22 +15,76 @@ I64_MIN, I64_MAX = gen.I64_MIN, gen.I64_MAX
 
 
 def descriptors(items, outs):
-    """descriptor tokens of SPECDEC from the writer's results; None if the program did not succeed"""
-    flat = c01.flat_items(items)
-    toks = [o for o in outs if o[0] in "bp" and ":" in o]
-    if any(o.startswith("e") or o in ("P", "dropP") for o in outs) or len(toks) != len(flat):
+    """(descriptor tokens of SPECDEC, the items that were written) from the writer's results.  A call that
+    returned an error contributes nothing (the writer lives on, the file must still be well formed);
+    None if the writer could not be created, a call panicked or finalize failed."""
+    if not outs or outs[0] != "o" or outs[-1] != "o" or "P" in outs or "dropP" in outs:
         return None
-    descs = []
-    for it, o in zip(flat, toks):
-        if it[0] == "B":
-            if o[0] != "b":
+    toks = outs[1:-1]
+    descs, kept, k = [], [], 0
+    for it in items:
+        if k >= len(toks):
+            return None
+        if toks[k].startswith("e"):
+            k += 1
+            continue
+        parts = [("B", it[2])] + ([("B", it[3])] if it[3] is not None else []) if it[0] == "I" else [it]
+        for part in parts:
+            if k >= len(toks):
                 return None
-            descs.append(o)
+            o = toks[k]
+            k += 1
+            if part[0] == "B":
+                if o[0] != "b":
+                    return None
+                descs.append(o)
+            else:
+                if o[0] != "p" or "?" in o:
+                    return None
+                descs.append("%s:%s" % (o, ",".join(specgen.bare_type(t) for _, t in part[1])))
+            kept.append(part)
+    return (descs, kept) if k == len(toks) else None
+
+
+def gen_partly_failing(rng, tier):
+    """call sequences in which one call fails (the hypothesis of the property is only that finalize
+    returned Ok): out-of-range, mistyped or missing values, prototypes the writer rejects"""
+    progs = []
+    for _ in range(40 if tier == "quick" else 1500):
+        proto = gen.rand_proto(rng, small=True)
+        pts = gen.rand_points(rng, proto, rng.choice([1, 2, 5, 30]))
+        c = rng.below(5)
+        j, a = rng.below(len(pts)), rng.below(len(proto))
+        if c == 0:
+            ints = [i for i, (_, t) in enumerate(proto) if t[0] in "IS"]
+            if ints:
+                a = rng.choice(ints)
+                mx = int(proto[a][1].split("/")[2])
+                if mx < gen.I64_MAX:
+                    pts[j][a] = ("i%d" if proto[a][1][0] == "I" else "s%d") % (mx + 1)       # out of range
+                else:
+                    pts[j][a] = "f00000000"
+            else:
+                pts[j][a] = "i0"
+        elif c == 1:
+            pts[j][a] = "i0" if proto[a][1] in ("F", "D") else "d0000000000000000"            # mistyped
+        elif c == 2:
+            pts[j] = pts[j][:-1]                                                            # a value is missing
+        elif c == 3:
+            proto = [(n, "I/5/5") for n, _ in proto]                                         # nothing to store: rejected
+            pts = []
         else:
-            if o[0] != "p" or "?" in o:
-                return None
-            descs.append("%s:%s" % (o, ",".join(specgen.bare_type(t) for _, t in it[1])))
-    return descs
+            proto = [("x", "F"), ("y", "F")]                                                 # incomplete coordinates: rejected
+            pts = []
+        bad = ("P", proto, pts) if c != 4 else ("P", proto, pts, "rejected by the API's name rules, which the binary model does not have")
+        good1 = ("B", rng.bytes(rng.range(0, 1200)))
+        p2 = gen.rand_proto(rng, small=True)
+        good2 = ("P", p2, gen.rand_points(rng, p2, rng.range(0, 9)))
+        items = [good1, bad, good2]
+        if rng.chance(1, 2):
+            items = [bad, good2, good1]
+        progs.append(items)
+    return progs
 
 
 def check_written(rep, progs):
@@ -40,21 +94,25 @@ def check_written(rep, progs):
     o_impl = core.run_cases(impl, ["FW %s DUMP" % l for l in lines])
     rep.count(len(lines))
     dec_lines, meta, xmls = [], [], []
-    n_dir = n_corr = skipped = 0
+    n_dir = n_corr = skipped = partly = 0
+    failed = set()
     for i, items in enumerate(progs):
         o = o_impl[i]
         dev = o.split(" dev=")[1].strip() if " dev=" in o else ""
         outs, summary, rbs, xml = c01.parse_fw(o.split(" dev=")[0])
         xmls.append(xml)
-        descs = descriptors(items, outs)
-        if descs is None or not dev:
-            skipped += 1        # the writer did not return Ok for every call: nothing is claimed about the file
+        dk = descriptors(items, outs)
+        if dk is None or not dev:
+            skipped += 1        # the writer could not be created or finalize did not return Ok: nothing is claimed about the file
             continue
+        descs, kept = dk
+        if any(o.startswith("e") for o in outs):
+            partly += 1
         dec_lines.append("SPECDEC %s %s" % (dev, " ".join(descs)))
-        meta.append((i, dev, descs, xml))
+        meta.append((i, dev, descs, xml, kept))
     dec = core.run_cases(core.DRIVER, dec_lines)
     rep.count(len(dec_lines))
-    for (i, dev, descs, xml), d in zip(meta, dec):
+    for (i, dev, descs, xml, kept), d in zip(meta, dec):
         items = progs[i]
         parts = d.split(" # ")
         head = dict(t.split("=", 1) for t in parts[0].split() if "=" in t)
@@ -69,12 +127,13 @@ def check_written(rep, progs):
         elif len(parts) - 1 != len(descs):
             bad, cls = "the independent decoder cannot decode a section of a finalized file (%s)" % d[:120], "c02-undecodable"
         else:
-            for k, it in enumerate(c01.flat_items(items)):
+            for k, it in enumerate(kept):
                 if parts[k + 1] != c01.expected_readback(it):
                     bad, cls = "item %d decodes as [%s], written [%s]" % (k, parts[k + 1][:160], c01.expected_readback(it)[:160]), "c02-content"
                     break
         if bad:
             n_dir += 1
+            failed.add(i)
             rep.violation(cls, bad, dict(kind="written-file", items=[c01.item_tok(x) for x in items], file=dev, descriptors=descs))
     # correspondence: the writer model produces the same bytes and publishes the same offsets
     o_model = core.run_cases(core.DRIVER, ["FW %s X:%s" % (l, x) for l, x in zip(mlines, xmls)])
@@ -82,13 +141,15 @@ def check_written(rep, progs):
         a = c01.parse_fw(o_impl[i].split(" dev=")[0])
         m = c01.parse_fw(o_model[i])
         key = lambda p: (p[0], [t for t in p[1].split() if t.startswith("len=") or t.startswith("h=")])
-        if key(a) != key(m):
+        if any(it[0] == "P" and len(it) > 3 for it in items):
+            continue
+        if key(a) != key(m) and i not in failed:
             n_corr += 1
             rep.violation("correspondence-c02", "writer model and implementation differ (results or file bytes): impl=%s | model=%s" %
                           (c01.strip_xml(o_impl[i].split(" dev=")[0])[:200], o_model[i][:200]),
                           dict(kind="writer-program", items=[c01.item_tok(x) for x in items],
                                failing="correspondence writer model vs implementation"), no_input=True)
-    return o_impl, n_dir, n_corr, skipped, len(dec_lines)
+    return o_impl, n_dir, n_corr, skipped, len(dec_lines), partly
 
 
 # ---------------------------------------------------------------- the bundled foreign files
@@ -152,6 +213,82 @@ def check_foreign(rep, tier):
     return len(names), accepted
 
 
+# ---------------------------------------------------------------- the decoder has teeth
+
+def check_teeth(rep, rng):
+    """every clause of spec_wellformed rejects a file that violates it: one real file, one defect at a time
+    (pages resealed unless the defect is the checksum)"""
+    impl = core.ensure_harness("debug")
+    proto = [("x", "F"), ("y", "F"), ("z", "F"), ("in", "I/0/2047")]
+    items = [("B", rng.bytes(301)), ("P", proto, gen.rand_points(rng, proto, 7)), ("B", rng.bytes(64))]
+    o = core.run_one(impl, "FW - " + " ".join(c01.item_tok(i) for i in items) + " DUMP")
+    f = bytes.fromhex(o.split(" dev=")[1].strip())
+    outs = c01.parse_fw(o.split(" dev=")[0])[0]
+    descs, kept = descriptors(items, outs)
+    (b0, _), (p0, _), (b1, _) = [(int(d[1:].split(":")[0]), 0) for d in descs]
+    lb0, lp0 = specgen.log_of_phys(b0), specgen.log_of_phys(p0)
+    log = bytearray(crc.strip(f))
+    le = lambda v, n=8: (v % (1 << (8 * n))).to_bytes(n, "little")
+    u = lambda off, n=8: int.from_bytes(log[off:off + n], "little")
+
+    def patched(off, data):
+        l = bytearray(log)
+        l[off:off + len(data)] = data
+        return crc.paginate(bytes(l))
+    cases = [("unchanged", f, descs, True),
+             ("one payload bit flipped, checksum not updated", bytes([f[0]]) + bytes([f[1] ^ 1]) + f[2:], descs, False),
+             ("checksum byte flipped", f[:1021] + bytes([f[1021] ^ 0x10]) + f[1022:], descs, False),
+             ("size not a whole number of pages", f[:-1], descs, False),
+             ("last page missing (stated length differs)", f[:-1024], descs, False),
+             ("signature", patched(0, b"ASTM-E58"), descs, False),
+             ("major version 2", patched(8, le(2, 4)), descs, False),
+             ("minor version 1", patched(12, le(1, 4)), descs, False),
+             ("page size 2048", patched(40, le(2048)), descs, False),
+             ("stated file length one page too long", patched(16, le(len(f) + 1024)), descs, False),
+             ("XML offset inside checksum bytes", patched(24, le(1021)), descs, False),
+             ("XML offset inside the header", patched(24, le(40)), descs, False),
+             ("XML length reaches behind the end", patched(32, le(len(log))), descs, False),
+             ("XML length zero", patched(32, le(0)), descs, False),
+             ("XML range overlaps the last section", patched(24, le(b1)), descs, False),
+             ("vector: section id 0", patched(lp0, b"\x00"), descs, False),
+             ("vector: reserved byte set", patched(lp0 + 3, b"\x01"), descs, False),
+             ("vector: section length + 4", patched(lp0 + 8, le(u(lp0 + 8) + 4)), descs, False),
+             ("vector: section length - 4", patched(lp0 + 8, le(u(lp0 + 8) - 4)), descs, False),
+             ("vector: section length not a multiple of 4", patched(lp0 + 8, le(u(lp0 + 8) + 2)), descs, False),
+             ("vector: data offset + 4 (inside a packet)", patched(lp0 + 16, le(u(lp0 + 16) + 4)), descs, False),
+             ("vector: data offset before the section", patched(lp0 + 16, le(b0)), descs, False),
+             ("vector: data offset in checksum bytes", patched(lp0 + 16, le(1022)), descs, False),
+             ("vector: index offset on a data packet", patched(lp0 + 24, le(u(lp0 + 16))), descs, False),
+             ("vector: packet type 7", patched(lp0 + 32, b"\x07"), descs, False),
+             ("vector: packet length + 4", patched(lp0 + 34, le(u(lp0 + 34, 2) + 4, 2)), descs, False),
+             ("vector: packet length - 4", patched(lp0 + 34, le(u(lp0 + 34, 2) - 4, 2)), descs, False),
+             ("vector: bytestream count + 1", patched(lp0 + 36, le(u(lp0 + 36, 2) + 1, 2)), descs, False),
+             ("vector: a stream length + 4", patched(lp0 + 38, le(u(lp0 + 38, 2) + 4, 2)), descs, False),
+             ("blob: section id 1", patched(lb0, b"\x01"), descs, False),
+             ("blob: reserved byte set", patched(lb0 + 7, b"\x01"), descs, False),
+             ("blob: section length + 4", patched(lb0 + 8, le(u(lb0 + 8) + 4)), descs, False),
+             ("blob: section length = data length", patched(lb0 + 8, le(301)), descs, False),
+             ("blob: descriptor longer than the section", f, ["b%d:%d" % (b0, 309)] + descs[1:], False),
+             ("descriptor offset + 4", f, ["b%d:301" % (b0 + 4)] + descs[1:], False),
+             ("descriptor offset not 4-aligned", f, ["b%d:301" % (b0 + 2)] + descs[1:], False),
+             ("descriptor offset in checksum bytes", f, ["b1021:301"] + descs[1:], False),
+             ("descriptor of a vector on a blob section", f, [descs[1].replace("p%d:" % p0, "p%d:" % b0)] + descs[1:], False),
+             ("the same section listed twice", f, descs + [descs[0]], False),
+             ("a section descriptor on the header", f, ["b0:32"] + descs, False)]
+    out = core.run_cases(core.DRIVER, ["SPECDEC %s STRUCT %s" % (c[1].hex(), " ".join(c[2])) for c in cases])
+    rep.count(len(cases))
+    n = 0
+    for (what, _, _, want), o in zip(cases, out):
+        got = o.startswith("wf=1")
+        if got != want:
+            n += 1
+            rep.violation("c02-spec-too-lax" if got else "c02-spec-too-strict",
+                          "spec_wellformed %s a real file with this defect: %s (%s)" % ("accepts" if got else "rejects", what, o[:100]),
+                          dict(kind="spec-selftest", what=what), no_input=True)
+    return len(cases), n
+
+
+
 def run(rep, tier, rng, replay=None):
     ok = core.proof_step(rep, "C02", thorough=(tier == "thorough"))
     rep.cov["trusted_base"] = core.TRUSTED_COMMON + [
@@ -168,12 +305,12 @@ def run(rep, tier, rng, replay=None):
                    [p.split(",") for p in t.split(":")[2].split(";")] if len(t.split(":")) > 2 and t.split(":")[2] else [])
                   for t in replay["items"]]]
     else:
-        progs = c01.gen_programs(rng.fork(), tier) + c06.gen_programs(rng.fork(), tier)
+        progs = c01.gen_programs(rng.fork(), tier) + c06.gen_programs(rng.fork(), tier) + gen_partly_failing(rng.fork(), tier)
         if tier == "quick":
             # the capacity-boundary programs of C01 are long; one of them is enough here
             big = [p for p in progs if any(i[0] == "P" and len(i[2]) > 1000 for i in p)]
             progs = [p for p in progs if p not in big[1:]]
-    o_impl, n_dir, n_corr, skipped, judged = check_written(rep, progs)
+    o_impl, n_dir, n_corr, skipped, judged, partly = check_written(rep, progs)
     residues = set()
     for i, items in enumerate(progs):
         for o in c01.parse_fw(o_impl[i].split(" dev=")[0])[0]:
@@ -181,12 +318,13 @@ def run(rep, tier, rng, replay=None):
                 residues.add(specgen.log_of_phys(int(o[1:].split(":")[0])) % 1020)
         rep.distinct(gen.fnv_hex(" ".join(c01.item_tok(x) for x in items).encode()))
     n_foreign, n_acc = (0, 0) if replay else check_foreign(rep, tier)
-    rep.cov.update(programs=len(progs), files_judged=judged, programs_not_ok_skipped=skipped, section_start_residues_mod_1020=len(residues),
-                   foreign_files=n_foreign, foreign_files_accepted=n_acc, direct_failures=n_dir, correspondence_failures=n_corr,
+    n_teeth, n_teeth_bad = (0, 0) if replay else check_teeth(rep, rng.fork())
+    rep.cov.update(programs=len(progs), files_judged=judged, programs_not_ok_skipped=skipped, programs_with_a_failed_call=partly, section_start_residues_mod_1020=len(residues),
+                   foreign_files=n_foreign, foreign_files_accepted=n_acc, defective_files_for_the_decoder=n_teeth, defects_not_rejected=n_teeth_bad, direct_failures=n_dir, correspondence_failures=n_corr,
                    traces_validated_against_impl=len(progs))
     rep.sample(dict(kind="written file", items=[c01.item_tok(x)[:100] for x in progs[len(progs) // 2]]))
-    rep.cov["rule"] = ("writer programs of C01 and C06 (blobs, images of all four kinds with and without mask, point clouds over the type/width grid, interleaved; preceding content swept "
+    rep.cov["rule"] = ("writer programs of C01 and C06 plus call sequences in which one call fails (out-of-range, mistyped or missing value, rejected prototype; the file must still be well formed and hold the other items) (blobs, images of all four kinds with and without mask, point clouds over the type/width grid, interleaved; preceding content swept "
                        "over residues modulo 1020; packet-capacity boundary) run through the real writer; the finalized file is judged by the extracted spec_wellformed (pages, checksums, "
                        "header, XML range, every section: alignment, position outside checksums, section id, header lengths, packet lengths and stream lengths, data/index offsets, no overlap) "
                        "and decoded by the extracted spec_decode_file; points and blob bytes must equal the input. The bundled libE57Format files must be accepted and decode to what the "
-                       "reader returns. Correspondence: writer model file = real file byte for byte. distinct = distinct programs")
+                       "reader returns; one real file with one defect at a time (40 defects: every clause of the decoder) must be rejected. Correspondence: writer model file = real file byte for byte. distinct = distinct programs")
